@@ -58,6 +58,7 @@ def random_cases(n, seed):
             opens.append(c)
         if not opens:
             opens = [c]
+        opens = [o for i, o in enumerate(opens) if o not in opens[:i]]      # a channel can be opened once
         x = [rnd.choice([0, 1, 97, 127, 128, 255]) for _ in range(rnd.choice([0, 1, 2, 9, 40]))]
         out.append(dict(cls="iso", kind=kind, open=opens, c=c, x=x, op=rnd.choice(["tell", "ask"])))
     return out
@@ -126,6 +127,8 @@ def check(pid, tier, replay=None):
         with open(replay) as f:
             only = json.load(f)["payload"].get("kind")
     stats, violations = run_pipeline(tier, only)
+    if stats["dispatched"] < stats["cases"] // 4:
+        raise core.Inconclusive("vacuous run: only %d of %d cases reached an opened channel" % (stats["dispatched"], stats["cases"]))
     mine = [core.Violation(pid, key, what, core.write_replay(pid, key, payload)) for key, what, payload in violations]
     if stats["drift"]:
         print("DRIFT component=Mux steps=%d (model and code disagree on steps that falsify no listed property) e.g. %s"
